@@ -22,6 +22,7 @@ import (
 	"errors"
 	"fmt"
 	"io/fs"
+	"math/rand/v2"
 	"os"
 	"path/filepath"
 	"strconv"
@@ -38,6 +39,7 @@ const procfddir = "/proc/self/fd"
 
 type tmpfile struct {
 	f          *os.File
+	tmpdirname string
 	bucket     string
 	objname    string
 	isOTmp     bool
@@ -82,6 +84,7 @@ func (p *Posix) openTmpFile(dir, bucket, obj string, size int64, acct auth.Accou
 
 	tmp := &tmpfile{
 		f:          f,
+		tmpdirname: dir,
 		bucket:     bucket,
 		objname:    obj,
 		isOTmp:     true,
@@ -167,9 +170,15 @@ func (tmp *tmpfile) link() error {
 	// from simultaneous uploads.
 	objPath := filepath.Join(tmp.bucket, tmp.objname)
 	verifhook.At("link.remove", tmp.bucket, tmp.objname)
-	err := os.Remove(objPath)
-	if err != nil && !errors.Is(err, fs.ErrNotExist) {
-		return fmt.Errorf("remove stale path: %w", err)
+	// An existing object is replaced by the rename below, so that the key
+	// never appears missing while it is overwritten. Only a stale (empty)
+	// directory has to make way first.
+	fi, err := os.Lstat(objPath)
+	if err == nil && fi.IsDir() {
+		err = os.Remove(objPath)
+		if err != nil && !errors.Is(err, fs.ErrNotExist) {
+			return fmt.Errorf("remove stale path: %w", err)
+		}
 	}
 	verifhook.At("link.removed", tmp.bucket, tmp.objname)
 
@@ -191,30 +200,39 @@ func (tmp *tmpfile) link() error {
 	}
 	defer procdir.Close()
 
-	dirf, err := os.Open(dir)
+	// linkat can not replace an existing name: give the unnamed file a
+	// name in the directory it was created in, then rename it into place
+	dirf, err := os.Open(tmp.tmpdirname)
 	if err != nil {
-		return fmt.Errorf("open parent dir: %w", err)
+		return fmt.Errorf("open temp dir: %w", err)
 	}
 	defer dirf.Close()
 
+	var tempname string
 	for {
+		tempname = fmt.Sprintf("%x.%v", sha256.Sum256([]byte(tmp.objname)), rand.Uint64())
 		verifhook.At("link.linkat", tmp.bucket, tmp.objname)
 		err = unix.Linkat(int(procdir.Fd()), filepath.Base(tmp.f.Name()),
-			int(dirf.Fd()), filepath.Base(objPath), unix.AT_SYMLINK_FOLLOW)
+			int(dirf.Fd()), tempname, unix.AT_SYMLINK_FOLLOW)
 		if errors.Is(err, syscall.EEXIST) {
-			err := os.Remove(objPath)
-			if err != nil && !errors.Is(err, fs.ErrNotExist) {
-				return fmt.Errorf("remove stale path: %w", err)
-			}
 			continue
 		}
 		if err != nil {
 			return fmt.Errorf("link tmpfile (fd %q as %q): %w",
-				filepath.Base(tmp.f.Name()), objPath, err)
+				filepath.Base(tmp.f.Name()), tempname, err)
 		}
 		break
 	}
 	verifhook.At("link.linked", tmp.bucket, tmp.objname)
+
+	tempname = filepath.Join(tmp.tmpdirname, tempname)
+	verifhook.At("link.rename", tmp.bucket, tmp.objname)
+	err = os.Rename(tempname, objPath)
+	verifhook.At("link.renamed", tmp.bucket, tmp.objname)
+	if err != nil {
+		os.Remove(tempname)
+		return fmt.Errorf("rename tmpfile (%q as %q): %w", tempname, objPath, err)
+	}
 
 	err = tmp.f.Close()
 	if err != nil {
